@@ -392,3 +392,28 @@ def integral : Expr → Bool
   | .tern c t f => integral c && integral t && integral f
 
 end Occa.Prim
+
+namespace Occa.Prim
+open Occa Occa.CExpr Occa.CxxSem Occa.Gen
+
+/-- `&&` / `||` with a floating operand: the two operands must then have the same type.  (occa converts
+    both operands to the larger type before testing them against zero; that this keeps "non-zero" when
+    an integer or a float is widened to float/double is an IEEE fact nothing here assumes.) -/
+def logicOk (a b : Option Ty) : Bool :=
+  match a, b with
+  | some x, some y => (!x.isFloat && !y.isFloat) || x == y
+  | _, _ => true
+
+/-- the guard of the agreement theorem for expressions that may contain floating literals:
+    `clean` plus `logicOk` at every `&&` / `||` -/
+def cleanF : Expr → Bool
+  | .lit _ => true
+  | .paren e => cleanF e
+  | .un op e => cleanF e && !(op = .bnot && typeOf e = some .bool)
+  | .bin op l r =>
+    cleanF l && cleanF r &&
+      !((op = .band || op = .bxor || op = .bor) && typeOf l = some .bool && typeOf r = some .bool) &&
+      (!(op = .land || op = .lor) || logicOk (typeOf l) (typeOf r))
+  | .tern c t f => cleanF c && cleanF t && cleanF f && (typeOf t == typeOf f)
+
+end Occa.Prim
